@@ -152,6 +152,35 @@ def same_values(a, b, lon=False):
     return bool(np.allclose(a, b, rtol=1e-12, atol=1e-12, equal_nan=True))
 
 
+def is_chunk(v):
+    return isinstance(v, str) and v.startswith("chunk:")
+
+
+def do_history_op(g, v):
+    """one entry of a materialisation history: an attribute name (read it), or `chunk:<n_node>:<n_edge>:<n_face>`
+    (`Grid.chunk` with these arguments, `auto` or an int; -1 = one chunk): the arrays present at that moment become dask arrays"""
+    if is_chunk(v):
+        a = [x if x == "auto" else int(x) for x in v.split(":")[1:]]
+        g.chunk(n_node=a[0], n_edge=a[1], n_face=a[2])
+    else:
+        getattr(g, v)
+
+
+def random_chunk(rng):
+    return "chunk:" + ":".join(str(rng.choice(["auto", -1, 1, 2, 3, 5, 64])) for _ in range(3))
+
+
+def add_chunks(rng, hist, p=0.3):
+    """the backing of the source is a random dimension of every case: with probability `p` the source is chunked at a random
+    point of its materialisation history (sometimes twice)"""
+    hist = list(hist)
+    if rng.random() < p:
+        hist.insert(rng.randint(0, len(hist)), random_chunk(rng))
+        if rng.random() < 0.25:
+            hist.insert(rng.randint(0, len(hist)), random_chunk(rng))
+    return hist
+
+
 def make_index(sel):
     idx = sel["index"]
     form = sel.get("form", "list")
@@ -238,7 +267,7 @@ def replay_prefix(case, depth):
         grid = obj.uxgrid if (is_da and i > 0) else (g if i == 0 else obj)
         for v in steps[i].get("history", []):
             try:
-                getattr(grid, v)
+                do_history_op(grid, v)
             except Exception:
                 pass
         if is_da and i == 0:
@@ -276,9 +305,16 @@ def judge_step(ctx, case, step, prev, depth):
     hist_done = []
     for v in step.get("history", []):
         try:
-            getattr(g, v)
+            do_history_op(g, v)
             hist_done.append(v)
+            if is_chunk(v):
+                ctx.hit("source-chunked(dask-backed)" if depth == 0 else "intermediate-subgrid-chunked")
         except Exception as e:  # a derived variable of the SOURCE that cannot be built is another property's business
+            if is_chunk(v):
+                # Grid.chunk itself failing on this path is noted, not judged (C08's business)
+                ctx.hit(f"chunk-raises:{type(e).__name__}")
+                ctx.notes.append(f"Grid.chunk raised {type(e).__name__}: {str(e)[:120]} (history {step.get('history')}): noted, not judged")
+                continue
             if depth:
                 ctx.fail(f"C09/chain/depth={depth}/derived={v}/raises={type(e).__name__}",
                          f"{v} of the intermediate sub-grid raises {type(e).__name__}: {str(e)[:160]}", case)
@@ -301,7 +337,15 @@ def judge_step(ctx, case, step, prev, depth):
     ctx.hit(src_kind)
     ctx.hit("history=%d" % len(hist_done))
     for v in hist_done:
-        ctx.hit("pre:" + v)
+        if not is_chunk(v):
+            ctx.hit("pre:" + v)
+    if any(is_chunk(v) for v in hist_done):
+        after = [v for v in hist_done[[is_chunk(v) for v in hist_done].index(True):] if not is_chunk(v)]
+        before = [v for v in hist_done[:[is_chunk(v) for v in hist_done].index(True)] if not is_chunk(v)]
+        if "edge_face_distances" in before:
+            ctx.hit("chunked-after-edge_face_distances")
+        if "edge_face_distances" in after:
+            ctx.hit("chunked-before-edge_face_distances")
 
     # ---- reference selection (Lean) ----
     want_ind, dropped = None, False
@@ -528,7 +572,7 @@ def judge_step(ctx, case, step, prev, depth):
     if "file" not in case or depth:
         # a sub-grid as a source: both edge tables are there (like a source that ships them)
         sup = case.get("supplied") if depth == 0 else dict(EN=[list(p) for p in EN], FE=FE)
-        hist_codes = [SM_VARS.index(h) for h in hist_done if h in SM_VARS]
+        hist_codes = [8 if is_chunk(h) else SM_VARS.index(h) for h in hist_done if h in SM_VARS or is_chunk(h)]
         order = [SM_VARS.index(h) for h in step.get("order", []) if h in SM_VARS]
         vw = d.ask("C09.view", w, enc_rows(t), 1 if sup else 0, enc_pairs(sup["EN"] if sup else []), enc_rows(sup["FE"] if sup else []),
                    enc_ints(hist_codes), 0, enc_ints(idx), enc_ints(order))
@@ -776,7 +820,7 @@ def random_case(ctx, m, ux, supplied=None, thorough_geo=False):
     else:
         hist = [v for v in pool if rng.random() < 0.4]
         rng.shuffle(hist)
-    case["history"] = hist
+    case["history"] = add_chunks(rng, hist)
     case["sel"] = random_selection(rng, g0, int(g0.n_edge))
     order = [v for v in SM_VARS if rng.random() < 0.5]
     rng.shuffle(order)
@@ -819,7 +863,7 @@ def add_chain(ctx, case, ux, depth):
             rng.shuffle(hist)
             order = [v for v in SM_VARS if rng.random() < 0.4]
             rng.shuffle(order)
-            chain.append(dict(history=hist, sel=sel, order=order, geo=rng.sample(GEO_CHEAP, 3),
+            chain.append(dict(history=add_chunks(rng, hist), sel=sel, order=order, geo=rng.sample(GEO_CHEAP, 3),
                               twin=[a for a in ALL_DERIVED if a != "bounds" and rng.random() < 0.5]))
             s = apply_sel(s, sel, False)
     except Exception:
@@ -880,7 +924,8 @@ def exact_lat_cases(ctx):
         table = [list(f) + [INT_FILL] * (w - len(f)) for f in faces]
         for via in ("grid", "uxda"):
             case = dict(mesh=dict(kind=tag, n_node=len(lon), n_face=len(faces)), table=table, lon=lon, lat=lat,
-                        history=[v for v in ("edge_node_z", "edge_face_connectivity", "node_z", "hole_edge_indices") if rng.random() < 0.4],
+                        history=add_chunks(rng, [v for v in ("edge_node_z", "edge_face_connectivity", "node_z", "hole_edge_indices")
+                                                 if rng.random() < 0.4]),
                         sel=dict(kind="lat", lat=float(qlat), at_node=True), via=via, order=[], geo=[])
             if via == "uxda":
                 case["data"] = dict(centre="face", lead=[2] if rng.random() < 0.5 else [], dtype="float")
@@ -926,7 +971,7 @@ def mpas_cases(ctx):
         else:
             sel = dict(kind="box", element="face centers", lon=[float(rng.uniform(-180, 0)), float(rng.uniform(0, 180))],
                        lat=[float(rng.uniform(-80, -10)), float(rng.uniform(10, 80))])
-        case = dict(file=MPAS, history=[v for v in ["hole_edge_indices", "edge_node_z", "n_nodes_per_face"] if rng.random() < 0.5],
+        case = dict(file=MPAS, history=add_chunks(rng, [v for v in ["hole_edge_indices", "edge_node_z", "n_nodes_per_face"] if rng.random() < 0.5]),
                     sel=sel, via=rng.choice(["grid", "uxda"]), geo=["edge_lon", "edge_lat", "face_lon"], order=[])
         if case["via"] == "uxda":
             case["data"] = dict(centre=rng.choice(["face", "node", "edge"]), lead=[rng.randint(1, 2)] if rng.random() < 0.5 else [], dtype="float")
@@ -971,7 +1016,9 @@ def run(ctx):
     import uxarray as ux
 
     ctx.rule = ("source = mesh from harness/meshes.zoo (25% with their own shuffled / re-oriented edge tables) or the MPAS sample; "
-                "history = none / one / random / all of 7 connectivity + 15 geometric variables materialised in random order; selection = "
+                "history = none / one / random / all of 7 connectivity + 15 geometric variables (+ edge_face_distances, face_areas, bounds) "
+                "materialised in random order, in 30% of the sources with Grid.chunk(random n_node / n_edge / n_face) applied at a random point "
+                "of the history (dask-backed arrays; the un-chunked, un-materialised twin gives the reference); selection = "
                 "face / node / edge indices (scalar, single, all, permuted, unsorted, sorted; list / tuple / int32 / int64 array), bounding box "
                 "(40% antimeridian-spanning) / circle / k-nearest on nodes, face centres, edge centres, constant latitude (35% exactly a "
                 "node's latitude, plus lat-lon grids queried at their node rows and triangle strips touching the parallel by an edge / "
